@@ -529,7 +529,53 @@ func families(run *vk.Run) []*family {
 		ireqFamily(run),
 		nreqFamily(run),
 		areqFamily(run),
+		nvFamily(run),
 	}
+}
+
+// nvFamily: S-nv - a subgraph that declares key / member fields stricter than the
+// supergraph (ID! vs ID); curated operations select different member fields of
+// the union under one alias (valid against the supergraph, conflicting in the
+// subgraph's own schema).
+func nvFamily(run *vk.Run) *family {
+	s := fedlab.SNV()
+	f := &family{name: "S-nv", s: s, u: fedlab.SNVUniverse(s), schema: mustSchema(s.SDL())}
+	d := s.Distributable()
+	strict := func(l *fedlab.Layout, sgs ...int) *fedlab.Layout {
+		l.SubgraphType = map[fedlab.FieldRef]map[int]string{}
+		for _, r := range []fedlab.FieldRef{{Type: "User", Field: "id"}, {Type: "Admin", Field: "id"}} {
+			l.SubgraphType[r] = map[int]string{}
+			for _, sg := range sgs {
+				l.SubgraphType[r][sg] = "ID!"
+			}
+		}
+		return l
+	}
+	mk := func(n int, name string, where map[string]int) *fedlab.Layout {
+		return fedlab.ByType(s, n, func(r fedlab.FieldRef) int { return where[r.String()] }, name)
+	}
+	f.layouts = []*fedlab.Layout{
+		fedlab.NewLayout(s, 1, make([]int, len(d)), "mono"),
+		strict(mk(2, "near0", map[string]int{"User.nick": 1, "Admin.level": 1}), 0, 1), // decorated in both tiers
+		strict(mk(2, "strict-entry", map[string]int{"User.nick": 1, "Admin.level": 1}), 0),
+		strict(mk(2, "strict-remote", map[string]int{"User.nick": 1, "Admin.level": 1, "Admin.code": 1}), 1),
+		strict(fedlab.NewLayout(s, 1, make([]int, len(d)), "mono-strict"), 0),
+	}
+	f.base = f.layouts[1].OwnerVector()
+	f.ops = fedlab.GenOps(fedlab.GenConfig{Schema: f.schema, Widths: vk.Pick(run, []int{1, 2, 1}, []int{1, 3, 1})}, "query")
+	for _, root := range []string{"things", "thing"} {
+		for _, q := range []string{
+			`{ ` + root + ` { ... on User { ref: id } ... on Admin { ref: code } } }`,
+			`{ ` + root + ` { ... on Admin { ref: code } ... on User { ref: id } } }`,
+			`{ ` + root + ` { __typename ... on User { ref: id name } ... on Admin { ref: code level } } }`,
+			`{ ` + root + ` { ... on User { ref: id nick } ... on Admin { ref: id code } } }`,
+			`{ ` + root + ` { ... on User { a: name b: id } ... on Admin { a: level b: code } } }`,
+			`{ ` + root + ` { ... on User { x: nick } ... on Admin { x: level } } }`,
+		} {
+			f.ops = append(f.ops, &fedlab.Op{Kind: "query", Raw: q})
+		}
+	}
+	return f
 }
 
 // areqFamily: S-areq - @requires field sets whose fields carry arguments, the
